@@ -103,6 +103,8 @@ type Contract struct {
 	Mods     []*ModItem
 	Loops    map[int]*LoopSpec
 	Cbs      map[string]*CbSpec
+	Sites    map[string][]*Clause // call-site assertions: callee name -> clauses over the caller's locals
+	ClosureLoops map[string]*LoopSpec // "closureName:ordinal" -> loop spec
 	Line     int
 	Notes    []string
 
@@ -206,7 +208,7 @@ func parseContractFile(path, pkgDir string, src []byte) (*ContractFile, error) {
 			continue
 		}
 		if m := reHead.FindStringSubmatch(body); m != nil {
-			cur = &Contract{PkgDir: pkgDir, Kind: m[1], Target: m[2], Flags: map[string]bool{}, Loops: map[int]*LoopSpec{}, Cbs: map[string]*CbSpec{}, Line: lineNo}
+			cur = &Contract{PkgDir: pkgDir, Kind: m[1], Target: m[2], Flags: map[string]bool{}, Loops: map[int]*LoopSpec{}, Cbs: map[string]*CbSpec{}, Sites: map[string][]*Clause{}, ClosureLoops: map[string]*LoopSpec{}, Line: lineNo}
 			cur.Props = strings.Fields(m[3])
 			cf.Contracts = append(cf.Contracts, cur)
 			continue
@@ -297,16 +299,36 @@ func parseContractFile(path, pkgDir string, src []byte) (*ContractFile, error) {
 			if j < 0 {
 				return nil, fmt.Errorf("%s:%d: loop N: ...", path, lineNo)
 			}
-			n, err := strconv.Atoi(strings.TrimSpace(rest[:j]))
-			if err != nil {
-				return nil, fmt.Errorf("%s:%d: loop ordinal: %v", path, lineNo, err)
-			}
-			ls := cur.Loops[n]
-			if ls == nil {
-				ls = &LoopSpec{}
-				cur.Loops[n] = ls
-			}
+			var ls *LoopSpec
+			n := 0
+			head := strings.TrimSpace(rest[:j])
 			sub := strings.TrimSpace(rest[j+1:])
+			if v, err := strconv.Atoi(head); err == nil {
+				n = v
+				ls = cur.Loops[n]
+				if ls == nil {
+					ls = &LoopSpec{}
+					cur.Loops[n] = ls
+				}
+			} else {
+				// loop <closure>:<n>: ...
+				k := strings.Index(sub, ":")
+				if k < 0 {
+					return nil, fmt.Errorf("%s:%d: loop <closure>:<n>: ...", path, lineNo)
+				}
+				v, err := strconv.Atoi(strings.TrimSpace(sub[:k]))
+				if err != nil {
+					return nil, fmt.Errorf("%s:%d: loop ordinal: %v", path, lineNo, err)
+				}
+				n = v
+				key := head + ":" + strconv.Itoa(n)
+				ls = cur.ClosureLoops[key]
+				if ls == nil {
+					ls = &LoopSpec{}
+					cur.ClosureLoops[key] = ls
+				}
+				sub = strings.TrimSpace(sub[k+1:])
+			}
 			skw, srest := sub, ""
 			if k := strings.IndexAny(sub, " \t"); k >= 0 {
 				skw, srest = sub[:k], strings.TrimSpace(sub[k:])
@@ -328,6 +350,19 @@ func parseContractFile(path, pkgDir string, src []byte) (*ContractFile, error) {
 			default:
 				return nil, fmt.Errorf("%s:%d: unknown loop clause %q", path, lineNo, skw)
 			}
+		case "site":
+			j := strings.Index(rest, ":")
+			if j < 0 {
+				return nil, fmt.Errorf("%s:%d: site NAME: requires ...", path, lineNo)
+			}
+			name := strings.TrimSpace(rest[:j])
+			sub := strings.TrimSpace(rest[j+1:])
+			if !strings.HasPrefix(sub, "requires") {
+				return nil, fmt.Errorf("%s:%d: site NAME: requires ...", path, lineNo)
+			}
+			cl := mk("siterequires", strings.TrimSpace(strings.TrimPrefix(sub, "requires")))
+			cl.Callback = name
+			cur.Sites[name] = append(cur.Sites[name], cl)
 		case "callback", "result-callback":
 			j := strings.Index(rest, ":")
 			if j < 0 {
@@ -392,6 +427,26 @@ func parseContractFile(path, pkgDir string, src []byte) (*ContractFile, error) {
 		sort.Ints(lo)
 		for _, k := range lo {
 			for _, cl := range c.Loops[k].Invariants {
+				lbl(cl)
+			}
+		}
+		var clk []string
+		for k := range c.ClosureLoops {
+			clk = append(clk, k)
+		}
+		sort.Strings(clk)
+		for _, k := range clk {
+			for _, cl := range c.ClosureLoops[k].Invariants {
+				lbl(cl)
+			}
+		}
+		var sn []string
+		for k := range c.Sites {
+			sn = append(sn, k)
+		}
+		sort.Strings(sn)
+		for _, k := range sn {
+			for _, cl := range c.Sites[k] {
 				lbl(cl)
 			}
 		}
@@ -821,7 +876,7 @@ func (g *genCtx) generate(cf *ContractFile) (string, error) {
 			switch cl.Kind {
 			case "ensures":
 				l3 = results
-			case "invariant":
+			case "invariant", "siterequires":
 				// free identifiers that are locals of the target
 				ids, err := freeIdents(expr)
 				if err != nil {
@@ -836,6 +891,12 @@ func (g *genCtx) generate(cf *ContractFile) (string, error) {
 					}
 					if lv := g.localVar(fd, id); lv != nil {
 						l3 = append(l3, nameType{id, g.typeStr(lv.Type())})
+						continue
+					}
+					for _, r := range results { // named results are variables of the body too
+						if r.name == id {
+							l3 = append(l3, r)
+						}
 					}
 				}
 			case "cbrequires", "cbensures":
@@ -878,7 +939,7 @@ func (g *genCtx) generate(cf *ContractFile) (string, error) {
 					return "", fmt.Errorf("%s:%d: pre()/lp() not allowed in %s", cf.Path, cl.Line, cl.Kind)
 				}
 				fmt.Fprintf(&w, "func %s%s(%s) bool {\n\t%s\n\treturn %s\n}\n", cl.FnName, tdecl, plist(l1), use(l1), expr)
-			case "invariant":
+			case "invariant", "siterequires":
 				cl.Levels = 2
 				if len(lps) > 0 || len(lpends) > 0 {
 					return "", fmt.Errorf("%s:%d: lp() not allowed in invariant", cf.Path, cl.Line)
